@@ -112,7 +112,7 @@ def run_case(case):
             os.makedirs(os.path.join(b(root), b"dst"))
             shutil.copytree(src, os.path.join(b(root), b"dst", b"src"))
         plan = dict(case["plan"])
-        plan.update({"log_mode": "none", "nofile": 1024, "max_steps": 200 * n + 200000 + (8 * n * n if content == "deep" else 0), "wall_ms": 600000, "cpu_ms": 300000, "pct_horizon": 2000,
+        plan.update({"log_mode": "none", "nofile": 1024, "max_steps": 800 * n + 600000 + (8 * n * n if content == "deep" else 0), "wall_ms": 600000, "cpu_ms": 300000, "pct_horizon": 2000,
                      "sched_cap_us": 2000})
         args = ["--driver", case["driver"], "-w", str(case["workers"]), "--block-size", str(bs)] + case.get("extra", []) + ["-r", "src", "dst"]
         if content == "sources":
